@@ -47,6 +47,54 @@ var c12Typed = map[string]any{
 	"MR3": map[string]any{"a": "v", "b": 42, "c": true}, "LR4": []any{"v", 42, "v", true},
 }
 
+// c12Shared: values a provider holds as Go objects (rebuilt before every case by c12SharedReset); c12SharedWant: what a
+// reference to them resolves to ($$ is an escaped $, also inside provider values)
+var c12Shared, c12SharedWant []any
+
+func c12SharedReset() {
+	c12Shared = []any{
+		// (two escapes in a row and an escaped reference: un-escaping them a second time is visible)
+		map[string]any{"e": "a$$$$b", "n": 1},
+		map[string]any{"m": map[string]any{"e": "x$${aa:K}"}, "l": []any{"$$$$y", 2}},
+		[]any{"$${aa:K}", map[string]any{"k": "b$$$$"}},
+	}
+	c12SharedWant = []any{
+		map[string]any{"e": "a$$b", "n": 1},
+		map[string]any{"m": map[string]any{"e": "x${aa:K}"}, "l": []any{"$$y", 2}},
+		[]any{"${aa:K}", map[string]any{"k": "b$$"}},
+	}
+}
+
+// c12SharedCheck: a provider-held instance referenced twice in one configuration and resolved twice by one resolver -
+// every occurrence, in every resolution, is the same exact expansion of the provider's value
+func c12SharedCheck(i int, def bool) (string, string) {
+	c12SharedReset()
+	ref := fmt.Sprintf("${aa:SI%d}", i)
+	r, err := c12Resolver([]map[string]any{{"k1": ref, "sub": map[string]any{"k2": ref}}}, def)
+	if err != nil {
+		return "shared-instance-error", err.Error()
+	}
+	norm := func(v any) string { b, _ := json.Marshal(v); return string(b) }
+	want := norm(c12SharedWant[i])
+	for round := 1; round <= 2; round++ {
+		var conf *Conf
+		nonterm, pan := vs.Guard(func() { conf, err = r.Resolve(context.Background()) })
+		if nonterm || pan != nil || err != nil {
+			return "shared-instance-error", fmt.Sprintf("resolution %d of %s: nonterm=%v panic=%v err=%v", round, ref, nonterm, pan, err)
+		}
+		m := conf.ToStringMap()
+		k1 := norm(m["k1"])
+		k2 := "<missing>"
+		if sub, ok := m["sub"].(map[string]any); ok {
+			k2 = norm(sub["k2"])
+		}
+		if k1 != want || k2 != want {
+			return "shared-provider-instance-expansion-differs", fmt.Sprintf("resolution %d: %s (a value the provider holds as one Go object) resolved to %s at k1 and %s at sub::k2, expected %s both times", round, ref, k1, k2, want)
+		}
+	}
+	return "", ""
+}
+
 func c12Resolver(sources []map[string]any, defScheme bool) (*Resolver, error) {
 	root := NewProviderFactory(func(ProviderSettings) Provider {
 		return c12Prov{"root", func(uri string) (*Retrieved, error) {
@@ -58,6 +106,12 @@ func c12Resolver(sources []map[string]any, defScheme bool) (*Resolver, error) {
 	a := NewProviderFactory(func(ProviderSettings) Provider {
 		return c12Prov{"aa", func(uri string) (*Retrieved, error) {
 			key := strings.TrimPrefix(uri, "aa:")
+			if strings.HasPrefix(key, "SI") {
+				// a provider that keeps its value as a Go object and hands out THE SAME instance on every retrieval
+				var i int
+				fmt.Sscanf(key, "SI%d", &i)
+				return NewRetrieved(c12Shared[i])
+			}
 			v, ok := c12Table[key]
 			if !ok && strings.Contains(key, "$") {
 				// a lenient provider: it would serve a name that contains $ - it must never be asked (the resolver reports
@@ -577,6 +631,10 @@ func TestVerif(t *testing.T) {
 		switch c.Kind {
 		case "expand":
 			return c12Expand(c.S, c.Def)
+		case "shared":
+			var i int
+			fmt.Sscanf(c.Key, "%d", &i)
+			return c12SharedCheck(i, c.Def)
 		case "typed":
 			return c12TypedCheck(c.Key, c.Def)
 		case "container":
@@ -670,6 +728,12 @@ func TestVerif(t *testing.T) {
 	for _, def := range []bool{false, true} {
 		for _, k := range keys {
 			do(c12Case{Kind: "typed", Key: k, Def: def}, true)
+		}
+	}
+	c12SharedReset()
+	for _, def := range []bool{false, true} {
+		for i := range c12Shared {
+			do(c12Case{Kind: "shared", Key: fmt.Sprint(i), Def: def}, true)
 		}
 	}
 	// 3. merge: all source lists up to 2 (full alphabet) and 3 (reduced alphabet; full in thorough)
